@@ -18,8 +18,8 @@ from concurrent.futures import ProcessPoolExecutor
 
 from .core import Ob, Report, REPO, use_repo
 
-Z3_MS = int(os.environ.get("PYVC_Z3_TIMEOUT_MS", "10000"))
-CVC5_MS = int(os.environ.get("PYVC_CVC5_TIMEOUT_MS", "10000"))
+Z3_MS = int(os.environ.get("PYVC_Z3_TIMEOUT_MS", "25000"))   # real obligations take < 2 s on an idle machine; the margin is for a loaded one
+CVC5_MS = int(os.environ.get("PYVC_CVC5_TIMEOUT_MS", "15000"))
 
 
 def _explore(spec):
@@ -67,7 +67,7 @@ def _explore(spec):
                 for h in o.hyps:
                     s2.add(h)
                 out["queries"].append({"name": "__path_feasible__", "path": o.path, "detail": "", "line": 0,
-                                       "trivial": False, "smt2": s2.to_smt2(), "goal": "hypotheses satisfiable", "vac": True})
+                                       "trivial": False, "smt2": "; VACUITY-GUARD\n" + s2.to_smt2(), "goal": "hypotheses satisfiable", "vac": True})
         out["paths_outcomes"] = [o[0] if o else "cut" for o in outcomes]
     except Exception:
         out["error"] = traceback.format_exc()
@@ -79,9 +79,12 @@ def _solve(smt2):
     """Returns (status sat|unsat|unknown, info, backend, ms)."""
     import z3
     t0 = time.time()
+    vac = smt2.startswith("; VACUITY-GUARD")
     try:
         s = z3.Solver()
-        s.set("timeout", Z3_MS)
+        # a vacuity guard only matters when it comes back `unsat` (contradictory hypotheses): a short budget is enough, and an
+        # inconclusive answer costs nothing but time
+        s.set("timeout", 2500 if vac else Z3_MS)
         s.from_string(smt2)
         r = s.check()
         ms = (time.time() - t0) * 1000
@@ -101,6 +104,8 @@ def _solve(smt2):
         reason = f"z3 error {e!r}"
     # cvc5 CLI on the same text (cannot parse z3 lambdas: then it stays unknown)
     try:
+        if vac:
+            raise RuntimeError("vacuity guard inconclusive within its budget")
         if "(lambda" in smt2:
             raise RuntimeError("query contains lambda terms (cvc5 1.0.3 CLI needs HO logic); skipped")
         with tempfile.NamedTemporaryFile("w", suffix=".smt2", delete=False) as f:
